@@ -133,13 +133,16 @@ def r9_3(run):
             ok = ok and user in uatoms
             if colname == "LENGTH":
                 ok = ok and entry == T("length_km") * 1000 / sections
+            if colname == "LOSS_COEFFICIENT":
+                # additive along the pipe like the length: each section carries its share, so that n sections lose what one does
+                ok = ok and entry == T("loss_coefficient") / sections
             if colname == "D":
                 ok = ok and entry == T("inner_diameter_mm") / 1000
             if colname == "K":
                 ok = ok and entry == T("k_mm") / 1000
         n_ok += ok
         run.ob("pipe|repeat|%s" % colname, ok,
-               "column %s is the user's %s repeated once per section%s" % (colname, user, " (length divided by the section count)" if colname == "LENGTH" else ""),
+               "column %s is the user's %s repeated once per section%s" % (colname, user, " (divided by the section count: the sections add up to the pipe)" if colname in ("LENGTH", "LOSS_COEFFICIENT") else ""),
                w, detail=txt[:200])
     # outer diameter: repeated too, defaulting to the inner diameter
     run.ob("pipe|repeat|DO", "DO" in cols and "np.repeat" in str(cols["DO"]),
